@@ -189,6 +189,32 @@ func observeTop(c *ucfg.Config, opts ...ucfg.Option) (m, l interface{}, err erro
 	return canonGo(mm), canonGo(ll), nil
 }
 
+// subConfigs collects the *Config nodes reachable from c (named entries and list positions, references followed)
+func subConfigs(c *ucfg.Config, opts []ucfg.Option, depth int, at string, out map[*ucfg.Config]string) {
+	if c == nil || depth <= 0 {
+		return
+	}
+	if _, seen := out[c]; seen {
+		return
+	}
+	out[c] = at
+	for _, k := range c.GetFields() {
+		if ok, _ := c.Has(k, -1, opts...); !ok {
+			continue
+		}
+		if sub, err := c.Child(k, -1, opts...); err == nil && sub != nil {
+			subConfigs(sub, opts, depth-1, at+"/"+k, out)
+		}
+	}
+	if n, err := c.CountField(""); err == nil {
+		for i := 0; i < n; i++ {
+			if sub, err := c.Child("", i, opts...); err == nil && sub != nil {
+				subConfigs(sub, opts, depth-1, fmt.Sprintf("%s/%d", at, i), out)
+			}
+		}
+	}
+}
+
 type topObs struct {
 	Nils [][]string `json:"nils"`
 	M    *obs       `json:"m"`
@@ -258,8 +284,12 @@ func runMerge(a, b *tree, pol string, fos []fieldOpt, repr string, rng *rand.Ran
 	srcOpts := []ucfg.Option{sep}
 	dstOpts := []ucfg.Option{sep}
 	if hasAlias(b) || hasAlias(a) {
-		// an operand holds ${references}: variable expansion on for both operands, the merge and the reads
-		opts = append(opts, ucfg.VarExp)
+		// an operand holds ${references}: variable expansion on for both operands, the merge and the reads - except that
+		// the MERGE CALL of every other case whose source has none is made without the option: the references the
+		// destination already holds are what they are, whatever this call says
+		if hasAlias(b) || sepPlace == 0 {
+			opts = append(opts, ucfg.VarExp)
+		}
 		obsOpts = append(obsOpts, ucfg.VarExp)
 		srcOpts = append(srcOpts, ucfg.VarExp)
 		dstOpts = append(dstOpts, ucfg.VarExp)
@@ -329,6 +359,16 @@ func runMerge(a, b *tree, pol string, fos []fieldOpt, repr string, rng *rand.Ran
 			after := jsonOf([]interface{}{m, l, srcCfg.Path("."), srcCfg.Parent() == nil})
 			if after != before {
 				srcChanged = before + " -> " + after
+			}
+			// "Merge copies": no sub-config of the result IS a sub-config of the source (identity, not equality)
+			walkOpts := obsOpts[1:] // no separator: the names GetFields reports are atoms
+			inSrc, inDst := map[*ucfg.Config]string{}, map[*ucfg.Config]string{}
+			subConfigs(srcCfg, walkOpts, 6, "src", inSrc)
+			subConfigs(dst, walkOpts, 6, "dst", inDst)
+			for c, at := range inDst {
+				if sat, shared := inSrc[c]; shared && srcChanged == "" {
+					srcChanged = "the node at " + at + " of the result IS the node at " + sat + " of the source"
+				}
 			}
 		}
 	})
